@@ -36,7 +36,7 @@ def run_one(m):
                 return 'BROKEN-MUTANT', f'pattern occurs {s.count(old)} times in {f}: {old[:60]!r}'
             open(p, 'w').write(s.replace(old, new))
         env = dict(os.environ, VERIF_REPO=d, VERIF_SCRATCH='1')
-        p = subprocess.run([os.path.join(ROOT, 'check'), m['prop']], env=env, stdout=subprocess.PIPE, stderr=subprocess.STDOUT, text=True)
+        p = subprocess.run([os.path.join(ROOT, 'check'), m['prop'], '--tier', m.get('tier', 'quick')], env=env, stdout=subprocess.PIPE, stderr=subprocess.STDOUT, text=True)
         out = p.stdout
         if 'cargo check failed' in out:
             return 'BROKEN-MUTANT', 'does not compile:\n' + out[-1500:]
